@@ -1561,6 +1561,14 @@ impl<'a> Exec<'a> {
     /// Apply operation `i`; false when the run had to be cut short.
     pub fn apply(&mut self, i: usize, op: &Op) -> bool {
         let run = &mut self.run;
+        // resource guard: the generator never lets more than ~280 orders rest at once; a book
+        // far beyond that means the code under test no longer consumes or removes orders (some
+        // monitor has said so already) and every further operation would cost O(book): stop here
+        if run.listing.len() > 2000 {
+            bump(&mut run.out.probes, "run_cut_short_book_exploded");
+            run.out.aborted_at = Some(i);
+            return false;
+        }
         match i {
             100 => bump(&mut run.out.probes, "history_past_100_ops"),
             1000 => bump(&mut run.out.probes, "history_past_1000_ops"),
